@@ -38,9 +38,9 @@ vj::Value run_case(const vj::Value& c)
   if(c["op"].as_str() != "adjexpr") return vh::bad("unknown op");
   const vj::Value& ops = c["ops"];
   if(ops.size() != 3) return vh::bad("chains of one or two operands are replayed by c19_adj2");
-  return with_operand(ops[0], false, [&](const auto& a) {
-    return with_operand(ops[1], false, [&](const auto& b) {
-      return with_operand(ops[2], false, [&](const auto& z) { return run_three(c, a, b, z); }); }); });
+  return with_operand<false>(ops[0], [&](const auto& a) {
+    return with_operand<false>(ops[1], [&](const auto& b) {
+      return with_operand<false>(ops[2], [&](const auto& z) { return run_three(c, a, b, z); }); }); });
 }
 
 int main(int argc, char** argv) { return vh::main_loop(argc, argv); }
